@@ -414,7 +414,9 @@ func (set *Set) MarkHostHealthy(host *Host) bool {
 	}
 	set.Lock()
 	defer set.Unlock()
-	if _, ok := set.all[host.Addr]; !ok {
+	// The host may have been removed or replaced by another one with the
+	// same address in the meantime, the result is not about the known one.
+	if cur, ok := set.all[host.Addr]; !ok || cur != host {
 		return false
 	}
 	set.addToHealthy(host)
@@ -428,7 +430,7 @@ func (set *Set) MarkHostUnhealthy(host *Host) bool {
 	}
 	set.Lock()
 	defer set.Unlock()
-	if _, ok := set.all[host.Addr]; !ok {
+	if cur, ok := set.all[host.Addr]; !ok || cur != host {
 		return false
 	}
 	set.removeFromHealthy(host)
